@@ -19,7 +19,9 @@ RULE = ('option combinations (require_csrf True/False/None or a non-bool 0/1/\'\
         'True/False/None/0/1/str/[]; the directive\'s leading options passed positionally; the view a function or a class whose '
         '__view_defaults__ (decorator / attribute / inherited) carry their own require_csrf next to the call-level one (absent, '
         'explicit None, True, False, other), registered by add_view, add_exception_view or @view_config + scan; storage '
-        'policies constructed with their own cookie name / session key; exception views; 0-3 other views with their own require_csrf in the same application; '
+        'policies constructed with their own cookie name / session key; pyramid.csrf_trusted_origins given to the Configurator, '
+        'added by add_settings after the views were committed, or changed in registry.settings between the requests of a '
+        'sequence (origins revoked / added); exception views; 0-3 other views with their own require_csrf in the same application; '
         'session, legacy-session and cookie storage (cookie value plain or quoted); trusted origins from settings or a caller '
         'list/tuple; the two functions called through pyramid.csrf or the deprecated pyramid.session aliases) x sequences of 1-4 requests sharing one trusted-origins list (method, scheme, Host/port or '
         'SERVER_NAME, Origin/Referer variants incl. null, lists, upper case, default ports, userinfo, brackets; token in '
@@ -82,7 +84,9 @@ LEVEL_TEXT = ('Machine-checked theorems for all configurations, requests and his
               'new_csrf_token installs the fresh token and a token handed out before the rotation is refused afterwards, '
               'the require_csrf view option follows the documented two-level precedence (whatever the add_view / view_config call '
               'passes, an explicit None included, replaces the class-level __view_defaults__ value; then the configured default '
-              'decides), the documented positional order of set_default_csrf_options is the signature order (fact), '
+              'decides), the trusted-origins setting is the one in force when the request is checked (every verdict of a sequence is the '
+              'single-check verdict for that request and the settings of that moment; a revoked origin is refused from the next '
+              'request on), the documented positional order of set_default_csrf_options is the signature order (fact), '
               'the urlsplit fragment extracts scheme/authority of scheme://authority[/...] and raises exactly on '
               'bad brackets; refutations for the unrepaired parameter values.')
 LEVEL_NOTE = ('Trusted: Coq kernel; the translator\'s primitive table and statement rules (fail-closed: anything outside '
@@ -235,6 +239,14 @@ def valid(case):
                    for k, v in prog.get('depth', {}).items()):
                 return False
         pats = ([s] if isinstance(s, str) else (s or [])) + (case['caller'] or [])
+        for r_ in case['reqs']:
+            sn = r_.get('settings_now')
+            if sn is not None:
+                if set(sn) != {'v'} or not (sn['v'] is None or isinstance(sn['v'], str) or _is_str_list(sn['v'])):
+                    return False
+                pats = pats + ([sn['v']] if isinstance(sn['v'], str) else (sn['v'] or []))
+        if cfg.get('settings_late') not in (None, True, False):
+            return False
         if case['caller'] is not None and not _is_str_list(case['caller']):
             return False
         if not all(_ascii_case_ok(p) for p in pats):
@@ -429,6 +441,26 @@ def _scan_module(kw, view, vc, settings):
     return mod
 
 
+SETTINGS_KEY = 'pyramid.csrf_trusted_origins'
+
+
+def _set_settings(registry, value):
+    """registry.settings of the (cached, shared) application: the value in force for the next request"""
+    if value is None:
+        registry.settings.pop(SETTINGS_KEY, None)
+    else:
+        registry.settings[SETTINGS_KEY] = list(value) if isinstance(value, list) else value
+
+
+def _settings_for(cfg, r):
+    sn = r.get('settings_now')
+    return sn['v'] if sn is not None else cfg['settings']
+
+
+def _settings_wire(v):
+    return [] if v is None else [v] if isinstance(v, str) else list(v)
+
+
 def _store_name(cfg):
     """the cookie name / session key under which the configured policy keeps the token"""
     pa = cfg.get('policy_args')
@@ -444,7 +476,7 @@ def _app(cfg):
         return hit
     I = _impl
     settings = {}
-    if cfg['settings'] is not None:
+    if cfg['settings'] is not None and not cfg.get('settings_late'):
         settings['pyramid.csrf_trusted_origins'] = cfg['settings']
     # a real non-autocommit Configurator; the statements are made in the order (and include nesting) the case
     # prescribes and committed once by make_wsgi_app()
@@ -584,6 +616,11 @@ def _app(cfg):
         nested(stmts[name], prog.get('depth', {}).get(name, 0))(config)
 
     config.add_tween('harness.c12.prop.capture_tween_factory')
+    if cfg.get('settings_late'):
+        # everything stated so far is committed (the views are derived); only then does the setting arrive
+        config.commit()
+        if cfg['settings'] is not None:
+            config.add_settings({SETTINGS_KEY: cfg['settings']})
     app = config.make_wsgi_app()
     hit = (app, config.registry, log, policy)
     _apps[key] = hit
@@ -702,6 +739,7 @@ def _run_seq(case):
     I = _impl
     cfg = case['config']
     app, registry, log, policy = _app(cfg)
+    _set_settings(registry, cfg['settings'])
     jars = []
     for st in case['clients']:
         jar = {}
@@ -782,6 +820,7 @@ def run_impl(case):
     fmod = I['session_mod'] if case.get('via') == 'session' else I['csrf']
     steps = []
     for r in case['reqs']:
+        _set_settings(registry, _settings_for(cfg, r))       # the setting in force when this request is checked
         # (a) through the router
         log['ran'] = 0
         del log['cb'][:]
@@ -834,6 +873,7 @@ def run_impl(case):
         except Exception as e:
             ov = _exc_obs(e)
         steps.append([view, status[0], len(log['cb']), tv, ov])
+    _set_settings(registry, cfg['settings'])
     if log.get('decoy'):
         steps.append(['decoy-view-ran', log.pop('decoy')])
     return [steps, list(shared) if shared is not None else []]
@@ -934,7 +974,8 @@ def to_wire(case):
           [] if s is None else [s] if isinstance(s, str) else list(s),
           _defaults_first(cfg)]
     caller = [] if case['caller'] is None else [list(case['caller'])]
-    return [cw, caller, [_req_wire(cfg, r) for r in case['reqs']]]
+    return [cw, caller, [_req_wire(cfg, r) + [[] if r.get('settings_now') is None else [_settings_wire(r['settings_now']['v'])]]
+                         for r in case['reqs']]]
 
 
 def from_wire(case, raw):
@@ -1160,6 +1201,10 @@ def kinds(case, obs):
             ks.append('view-option-both-levels' + ('-call-none' if case['config']['explicit'] is None else ''))
     if case['config'].get('explicit_none_passed'):
         ks.append('explicit-none-passed')
+    if any(r_.get('settings_now') is not None for r_ in case['reqs']):
+        ks.append('settings-changed-at-run-time')
+    if case['config'].get('settings_late'):
+        ks.append('settings-added-after-commit')
     if case['config'].get('policy_args'):
         ks.append('policy-custom-name-' + ('positional' if case['config']['policy_args'].get('positional') else 'keyword'))
     if case['config'].get('exc_api'):
